@@ -341,11 +341,125 @@ func (p *Prog) wakesAfter(st *ssa.Store, fa *ssa.FieldAddr) (bool, string) {
 	return false, "the return at " + where + " is reached without waking the waiters"
 }
 
+// freshChan: v is a channel made in this function (through merges and swaps of locals).
+func freshChan(v ssa.Value, seen map[ssa.Value]bool) bool {
+	if seen[v] {
+		return true
+	}
+	seen[v] = true
+	switch x := v.(type) {
+	case *ssa.MakeChan:
+		return true
+	case *ssa.Const:
+		return x.IsNil()
+	case *ssa.ChangeType:
+		return freshChan(x.X, seen)
+	case *ssa.Phi:
+		for _, e := range x.Edges {
+			if !freshChan(e, seen) {
+				return false
+			}
+		}
+		return true
+	}
+	return false
+}
+
+// channelsNotShared: every channel stored into a waited-on channel field is made by the storing
+// function (or is nil): a queue or close channel belongs to one object.  A channel that came
+// from somewhere else — a field of another object, a parameter, a pool — is shared between two
+// owners: what one of them is sent arrives at the other, and closing one closes both.
+func channelsNotShared(p *Prog, r *Report, R string, inPkg func(rel string) bool) {
+	r.Describe(R, "a channel installed in a field that some goroutine or call parks on is made by the function that installs it (or is nil): queues and close channels are never handed from one object to another, so what is queued for one connection cannot be delivered on the next and a close reaches only its own object (inproc's crossed queues, made for both ends by the function that creates the pair, are the one accepted hand-over)")
+	waited := p.waitedChanFields()
+	n := 0
+	per := map[string]int{}
+	for _, fn := range p.Funcs {
+		rel, _ := p.FuncRel(fn)
+		if !inPkg(rel) {
+			continue
+		}
+		EachInstr(fn, func(in ssa.Instruction) {
+			st, ok := in.(*ssa.Store)
+			if !ok {
+				return
+			}
+			fa, ok := st.Addr.(*ssa.FieldAddr)
+			if !ok {
+				return
+			}
+			fv, _ := fieldAddrVar(fa)
+			f := waited[fv]
+			if f == nil {
+				return
+			}
+			n++
+			key := p.FuncName(fn) + "/" + pathOfFieldAddr(fa)
+			per[key]++
+			if per[key] > 1 {
+				key = fmt.Sprintf("%s#%d", key, per[key])
+			}
+			if freshChan(st.Val, map[ssa.Value]bool{}) {
+				r.OK(R, key, p.InstrPos(in), "made here")
+				return
+			}
+			// a parameter of an unexported constructor-like helper whose callers pass fresh channels
+			if par, isPar := st.Val.(*ssa.Parameter); isPar && p.freshChanParam(fn, par) {
+				r.OK(R, key, p.InstrPos(in), "made by every caller for this call")
+				return
+			}
+			// the other end of a pair created in the same function
+			if ofv, oowner, _ := loadedField(st.Val); ofv != nil && ofv != fv && oowner == f.owner && freshBase(fa.X, 0) {
+				r.OK(R, key, p.InstrPos(in), "the crossed queue of a pair: the other queue of an object of the same type, installed in an end that is still under construction")
+				return
+			}
+			r.Bad(R, key, p.InstrPos(in), "the channel stored into "+fieldKey(fv, f.owner)+" ("+Desc(st.Val)+") was not made here: it is shared with whatever else holds it — messages queued for one owner are delivered by the other, and a close of one closes both")
+		})
+	}
+	r.Count("e13.channel_stores."+R, n)
+}
+
+func (p *Prog) freshChanParam(fn *ssa.Function, par *ssa.Parameter) bool {
+	if fn.Parent() != nil {
+		return false
+	}
+	if o := fn.Object(); o == nil || o.Exported() {
+		return false
+	}
+	idx := -1
+	for i, pp := range fn.Params {
+		if pp == par {
+			idx = i
+		}
+	}
+	n := p.CG().Nodes[fn]
+	if idx < 0 || n == nil || len(n.In) == 0 {
+		return false
+	}
+	for _, e := range n.In {
+		if e.Site == nil || e.Caller.Func == nil || !p.InScope(e.Caller.Func) {
+			return false
+		}
+		c := e.Site.Common()
+		var args []ssa.Value
+		if c.IsInvoke() {
+			args = append([]ssa.Value{c.Value}, c.Args...)
+		} else {
+			args = c.Args
+		}
+		if idx >= len(args) || !freshChan(args[idx], map[ssa.Value]bool{}) {
+			return false
+		}
+	}
+	return true
+}
+
 // DumpE13 prints every replacement of a waited-on channel field with its verdict.
 func DumpE13(p *Prog) {
 	debugE13 = true
 	rep := NewReport("E13", p.Conf.String())
 	waitedChannelStable(p, rep, "E13", func(string) bool { return true })
+	channelsNotShared(p, rep, "E13s", func(string) bool { return true })
 	for fv, f := range p.waitedChanFields() {
 		fmt.Println("WAITED", fieldKey(fv, f.owner), len(f.waiters))
 	}
